@@ -155,6 +155,19 @@ pub fn gen_blob(ch: &mut Choices, max: usize) -> Vec<u8> {
     ch.bytes("blob", n.min(max))
 }
 
+/// A block-sized body (60..140 kB, more than one mux segment can carry), expanded from one drawn seed
+/// so that it costs two tape entries.
+pub fn big_blob(ch: &mut Choices) -> Vec<u8> {
+    let n = 60_000 + ch.draw("blob.big.len", 80_001) as usize;
+    let mut r = crate::core::Rng::new(ch.u64("blob.big.seed"));
+    let mut v = Vec::with_capacity(n + 8);
+    while v.len() < n {
+        v.extend(r.next().to_le_bytes());
+    }
+    v.truncate(n);
+    v
+}
+
 /// a small well-formed CBOR item (AnyCbor fields carry verbatim CBOR)
 pub fn gen_anycbor(ch: &mut Choices) -> AnyCbor {
     let mut out = vec![];
@@ -315,7 +328,7 @@ pub fn gen_msg(proto: usize, k: u8, ch: &mut Choices) -> AnyMessage {
             1 => blockfetch::Message::ClientDone,
             2 => blockfetch::Message::StartBatch,
             3 => blockfetch::Message::NoBlocks,
-            4 => blockfetch::Message::Block(gen_blob(ch, 4000)),
+            4 => blockfetch::Message::Block(if ch.draw("bf.block.big", 16) == 15 { big_blob(ch) } else { gen_blob(ch, 4000) }),
             _ => blockfetch::Message::BatchDone,
         }),
         TS => AnyMessage::TxSubmission(match k {
